@@ -533,6 +533,7 @@ spif_dlinked_list_map_dup(spif_dlinked_list_t self)
         dest->prev = prev;
     }
     dest->next = (spif_dlinked_list_item_t) NULL;
+    dest->prev = prev;
     tmp->tail = dest;
     return tmp;
 }
